@@ -663,7 +663,7 @@ LEVEL = "proof"
 BOUNDED_BACKENDS = ("SWEEP",)
 HARD_TIMEOUT = {"quick": 1200, "thorough": 3600}
 MIN_OBLIGATIONS = {"quick": 100, "thorough": 100}
-TRUSTED = ["lemma L-TAYLOR: Lagrange / alternating-series remainders of sin, cos, atan (stated, not machine-checked)",
+TRUSTED = ["lemma L-TAYLOR: Lagrange / series remainders of sin, cos, atan: machine-checked in Lean 4 / mathlib (lemmas/Taylor.lean, `./check lemmas`); that cyverif/taylor.py uses exactly these constants is by inspection",
            "own Taylor-form arithmetic cyverif.taylor (exact rationals), canary on every run",
            "own interval arithmetic (outward rounding by nextafter) and forward error analysis cyverif.fperr; cross-checked against 60-digit evaluation by ./check selftest",
            "lemma L-NORMALIZE (stated, not machine-checked): in binary IEEE arithmetic |fl(x / fl(sqrt(fl(... + x^2 + ...))))| <= 1 when the sum neither underflows nor overflows (sqrt(fl(x^2)) rounds to |x|, rounding is monotone)",
